@@ -32,6 +32,7 @@ type SpecEnv struct {
 	old   *Snapshot
 	acq   *Snapshot
 	head  *Snapshot
+	pre   *Snapshot
 	// current evaluation view
 	hv    heapView
 	cells map[*Cell]Value
@@ -39,15 +40,18 @@ type SpecEnv struct {
 	named []map[string]*Cell
 	ptrs  []namedPtr
 	err   []string
+	inOld bool
+	ctxDone map[string]T
 }
 
 func (u *Unit) newEnv(st *State) *SpecEnv {
-	e := &SpecEnv{u: u, st: st, old: st.entry, acq: st.acq, hv: st.view(), cells: st.cells, cnt: st.cnt, bound: map[string]SV{}}
+	e := &SpecEnv{u: u, st: st, old: st.entry, acq: st.acq, hv: st.view(), cells: st.cells, cnt: st.cnt, bound: map[string]SV{}, ctxDone: st.ctxDone}
 	for f := st.frame; f != nil; f = f.parent {
 		e.named = append(e.named, f.named)
 	}
 	if len(st.loops) > 0 {
 		e.head = st.loops[len(st.loops)-1].head
+		e.pre = st.loops[len(st.loops)-1].pre
 	}
 	return e
 }
@@ -57,9 +61,19 @@ func (e *SpecEnv) withSnapshot(sn *Snapshot) *SpecEnv {
 	if sn == nil {
 		return &n
 	}
+	n.inOld = sn == e.st.entry
 	n.hv = sn.view()
-	n.cells = sn.cells
+	// locals that did not exist yet in the snapshot keep their current value
+	merged := make(map[*Cell]Value, len(e.cells))
+	for k, v := range e.cells {
+		merged[k] = v
+	}
+	for k, v := range sn.cells {
+		merged[k] = v
+	}
+	n.cells = merged
 	n.cnt = sn.cnt
+	n.ctxDone = sn.ctxDone
 	n.named = []map[string]*Cell{sn.named}
 	n.named = append(n.named, e.named...)
 	return &n
@@ -109,6 +123,14 @@ func (u *Unit) evalSE(env *SpecEnv, se SE) SV {
 		q := "forall"
 		if !x.Forall {
 			q = "exists"
+		}
+		if len(x.Triggers) > 0 {
+			var ps []string
+			for _, tr := range x.Triggers {
+				tv := u.evalSE(&n, tr)
+				ps = append(ps, u.lower(env.st, tv.V, tv.Typ).S)
+			}
+			return SV{V: T{fmt.Sprintf("(%s (%s) (! %s :pattern (%s)))", q, strings.Join(decl, " "), body.S, strings.Join(ps, " ")), SBool}}
 		}
 		return SV{V: T{fmt.Sprintf("(%s (%s) %s)", q, strings.Join(decl, " "), body.S), SBool}}
 	case *SEGo:
@@ -244,6 +266,31 @@ func (u *Unit) evalExpr(env *SpecEnv, e ast.Expr) SV {
 }
 
 func (u *Unit) lookupName(env *SpecEnv, name string) (*Cell, bool) {
+	if i := strings.Index(name, "__"); i > 0 {
+		// name__k : the k-th variable of that name in the function (1-based)
+		k, err := strconv.Atoi(name[i+2:])
+		if err == nil {
+			base := name[:i]
+			n := 0
+			for f := env.st.frame; f != nil; f = f.parent {
+				for _, b := range f.fn.Blocks {
+					for _, in := range b.Instrs {
+						if al, ok := in.(*ssa.Alloc); ok && al.Comment == base {
+							n++
+							if n == k {
+								if p, ok := f.regs[al].(*Ptr); ok && p.kind == pCell {
+									return p.cell, true
+								}
+								return nil, false
+							}
+						}
+					}
+				}
+				break
+			}
+			return nil, false
+		}
+	}
 	want := name
 	for _, m := range env.named {
 		if c, ok := m[want]; ok {
@@ -275,6 +322,11 @@ func (u *Unit) evalIdent(env *SpecEnv, name string) SV {
 	}
 	if v, ok := env.names[name]; ok {
 		return v
+	}
+	if env.inOld {
+		if v, ok := u.entryParams[name]; ok {
+			return v
+		}
 	}
 	switch name {
 	case "true":
@@ -392,14 +444,13 @@ func (u *Unit) evalIndex(env *SpecEnv, base, idx SV) SV {
 		sl := u.lower(env.st, base.V, base.Typ)
 		i := u.lower(env.st, idx.V, idx.Typ)
 		hn, hs := elemHeapName(u.sortOf(bt.Elem()))
-		return SV{V: Select(Select(u.heapGet(env.hv, hn, hs), app(SInt, "sarr", sl)), Add(app(SInt, "soff", sl), i)), Typ: bt.Elem()}
+		return SV{V: u.selem(u.heapGet(env.hv, hn, hs), sl, i), Typ: bt.Elem()}
 	case *types.Map:
 		m := u.lower(env.st, base.V, base.Typ)
 		ks, vs := u.sortOf(bt.Key()), u.sortOf(bt.Elem())
 		k := u.lower(env.st, idx.V, bt.Key())
 		dn, ds, vn, vsrt := mapHeapNames(ks, vs)
-		present := And(Neq(m, IntLit(0)), Select(Select(u.heapGet(env.hv, dn, ds), m), k))
-		return SV{V: Ite(present, Select(Select(u.heapGet(env.hv, vn, vsrt), m), k), u.zero(bt.Elem())), Typ: bt.Elem()}
+		return SV{V: u.mapGet(ks, vs, bt.Elem(), u.heapGet(env.hv, dn, ds), u.heapGet(env.hv, vn, vsrt), m, k), Typ: bt.Elem()}
 	case *types.Array:
 		a := u.lower(env.st, base.V, base.Typ)
 		return SV{V: Select(a, u.lower(env.st, idx.V, idx.Typ)), Typ: bt.Elem()}
@@ -426,9 +477,12 @@ func (u *Unit) evalBinary(env *SpecEnv, x *ast.BinaryExpr) SV {
 		default:
 			ta, tb := u.lower(env.st, a.V, a.Typ), u.lower(env.st, b.V, b.Typ)
 			if ta.Sort != tb.Sort {
-				return env.fail("comparison of %s and %s (%s vs %s)", ta.Sort, tb.Sort, ta.S, tb.S)
+				// ill-sorted on this path (e.g. lastarg of a different callee
+				// shape): an unconstrained truth value, provable only vacuously
+				r = u.fresh("illsorted", SBool)
+			} else {
+				r = Eq(ta, tb)
 			}
-			r = Eq(ta, tb)
 		}
 		if x.Op == token.NEQ {
 			r = Not(r)
@@ -518,6 +572,12 @@ func (u *Unit) resolveType(env *SpecEnv, e ast.Expr) types.Type {
 			return types.Typ[types.String]
 		case "int":
 			return types.Typ[types.Int]
+		case "bool":
+			return types.Typ[types.Bool]
+		case "any":
+			return types.Universe.Lookup("any").Type()
+		case "error":
+			return types.Universe.Lookup("error").Type()
 		}
 	case *ast.SelectorExpr:
 		if id, ok := x.X.(*ast.Ident); ok {
@@ -527,6 +587,35 @@ func (u *Unit) resolveType(env *SpecEnv, e ast.Expr) types.Type {
 				}
 			}
 		}
+	case *ast.IndexExpr:
+		g := u.resolveType(env, x.X)
+		a := u.resolveType(env, x.Index)
+		if g != nil && a != nil {
+			if t, err := types.Instantiate(nil, g, []types.Type{a}, false); err == nil {
+				return t
+			}
+		}
+	case *ast.FuncType:
+		var ps, rs []*types.Var
+		if x.Params != nil {
+			for _, f := range x.Params.List {
+				t := u.resolveType(env, f.Type)
+				if t == nil {
+					return nil
+				}
+				ps = append(ps, types.NewVar(0, nil, "", t))
+			}
+		}
+		if x.Results != nil {
+			for _, f := range x.Results.List {
+				t := u.resolveType(env, f.Type)
+				if t == nil {
+					return nil
+				}
+				rs = append(rs, types.NewVar(0, nil, "", t))
+			}
+		}
+		return types.NewSignatureType(nil, nil, nil, types.NewTuple(ps...), types.NewTuple(rs...), false)
 	}
 	return nil
 }
@@ -561,6 +650,11 @@ func (u *Unit) evalCall(env *SpecEnv, x *ast.CallExpr) SV {
 			return env.fail("iterold() outside a loop")
 		}
 		return u.evalExpr(env.withSnapshot(env.head), x.Args[0])
+	case "loopentry":
+		if env.pre == nil {
+			return env.fail("loopentry() outside a loop")
+		}
+		return u.evalExpr(env.withSnapshot(env.pre), x.Args[0])
 	case "len":
 		v := arg(0)
 		t := u.lower(env.st, v.V, v.Typ)
@@ -614,12 +708,41 @@ func (u *Unit) evalCall(env *SpecEnv, x *ast.CallExpr) SV {
 			}
 		}
 		return SV{V: u.fresh("noarg", srt)}
+	case "lastres":
+		id, _ := x.Args[0].(*ast.Ident)
+		if id != nil {
+			if v, ok := env.st.lastRes[id.Name]; ok && v != nil {
+				return SV{V: v}
+			}
+		}
+		srt := SInt
+		if len(x.Args) == 2 {
+			if sid, ok := x.Args[1].(*ast.Ident); ok {
+				srt = specSort(sid.Name)
+			}
+		}
+		return SV{V: u.fresh("nores", srt)}
 	case "typeOf":
 		t := u.resolveType(env, x.Args[0])
 		if t == nil {
 			return env.fail("typeOf: unknown type")
 		}
 		return SV{V: u.typeID(t)}
+	case "typeOfWith":
+		// typeOfWith(G[P], P, term): the type G[term] for a generic named type G
+		ix, ok := x.Args[0].(*ast.IndexExpr)
+		if !ok {
+			return env.fail("typeOfWith: expected G[P]")
+		}
+		gid, ok := ix.X.(*ast.Ident)
+		if !ok {
+			return env.fail("typeOfWith: expected G[P]")
+		}
+		g := u.eng.lookupType(u.pkg, gid.Name)
+		if g == nil {
+			return env.fail("typeOfWith: unknown generic type %s", gid.Name)
+		}
+		return SV{V: u.typeCon("tyc!"+smtName(typeKey(g)), []T{argT(2)})}
 	case "dynType":
 		return SV{V: app(SInt, "ity", argT(0))}
 	case "payload":
@@ -668,8 +791,8 @@ func (u *Unit) evalCall(env *SpecEnv, x *ast.CallExpr) SV {
 		}
 		return SV{V: False, Typ: boolT}
 	case "recovered":
-		if _, ok := env.st.cnt["recovered"]; ok {
-			return SV{V: True, Typ: boolT}
+		if d, ok := env.cnt["flag!recovered"]; ok {
+			return SV{V: d, Typ: boolT}
 		}
 		return SV{V: False, Typ: boolT}
 	case "tokens":
@@ -678,35 +801,59 @@ func (u *Unit) evalCall(env *SpecEnv, x *ast.CallExpr) SV {
 		return SV{V: IntLit(int64(env.st.tokens[key])), Typ: intT}
 	case "ctxSeenDone":
 		v := argT(0)
-		if d, ok := env.st.ctxDone[v.S]; ok {
+		if d, ok := env.ctxDone[v.S]; ok {
 			return SV{V: d, Typ: boolT}
 		}
 		return SV{V: False, Typ: boolT}
 	case "lastCtxCheck":
-		if d, ok := env.st.cnt["lastctxcheck"]; ok {
+		if d, ok := env.cnt["flag!lastctxcheck"]; ok {
 			return SV{V: d, Typ: boolT}
 		}
 		return SV{V: False, Typ: boolT}
 	case "closed":
 		v := argT(0)
-		if _, ok := env.st.cnt["closed:"+v.S]; ok {
-			return SV{V: True, Typ: boolT}
+		if d, ok := env.cnt["flag!closed:"+v.S]; ok {
+			return SV{V: d, Typ: boolT}
 		}
 		return SV{V: False, Typ: boolT}
 	case "waited":
 		v := arg(0)
-		if _, ok := env.st.cnt["waited:"+u.wgKey(env.st, v.V)]; ok {
-			return SV{V: True, Typ: boolT}
+		if d, ok := env.cnt["flag!waited:"+u.wgKey(env.st, v.V)]; ok {
+			return SV{V: d, Typ: boolT}
 		}
 		return SV{V: False, Typ: boolT}
 	case "seqeq":
-		// seqeq(s, t): same length and same elements
-		a, b := arg(0), arg(1)
-		sa, sb := u.lower(env.st, a.V, a.Typ), u.lower(env.st, b.V, b.Typ)
+		// seqeq(s, t): same length and same elements.  If an argument is
+		// old(e)/acq(e)/loopentry(e)/iterold(e), its elements are read in
+		// that snapshot too.
+		elemIn := func(e ast.Expr, i SV) (T, T) {
+			if c, ok := e.(*ast.CallExpr); ok {
+				if id, ok := c.Fun.(*ast.Ident); ok && len(c.Args) == 1 {
+					var sn *Snapshot
+					switch id.Name {
+					case "old":
+						sn = env.old
+					case "acq":
+						sn = env.acq
+					case "loopentry":
+						sn = env.pre
+					case "iterold":
+						sn = env.head
+					}
+					if sn != nil {
+						e2 := env.withSnapshot(sn)
+						e2.bound = env.bound
+						b := u.evalExpr(e2, c.Args[0])
+						return u.lower(env.st, b.V, b.Typ), u.lower(env.st, u.evalIndex(e2, b, i).V, nil)
+					}
+				}
+			}
+			b := u.evalExpr(env, e)
+			return u.lower(env.st, b.V, b.Typ), u.lower(env.st, u.evalIndex(env, b, i).V, nil)
+		}
 		i := SV{V: T{"q!seqi", SInt}, Typ: intT}
-		ea := u.lower(env.st, u.evalIndex(env, a, i).V, nil)
-		// b may be evaluated in another snapshot: the caller wraps it in old()/acq()
-		eb := u.lower(env.st, u.evalIndex(env, b, i).V, nil)
+		sa, ea := elemIn(x.Args[0], i)
+		sb, eb := elemIn(x.Args[1], i)
 		q := fmt.Sprintf("(forall ((q!seqi Int)) (=> (and (<= 0 q!seqi) (< q!seqi (slen %s))) (= %s %s)))", sa.S, ea.S, eb.S)
 		return SV{V: And(Eq(app(SInt, "slen", sa), app(SInt, "slen", sb)), T{q, SBool}), Typ: boolT}
 	}
@@ -742,7 +889,7 @@ func (u *Unit) evalCall(env *SpecEnv, x *ast.CallExpr) SV {
 		}
 		for i := range args {
 			if args[i].Sort != g.Args[i] {
-				return env.fail("ghost %s: argument %d has sort %s, want %s", name, i, args[i].Sort, g.Args[i])
+				return SV{V: u.fresh("illsorted", g.Ret)}
 			}
 		}
 		if len(args) == 0 {
